@@ -48,7 +48,15 @@ def pubWorldOf (j : Json) : Except String Pub.World := do
       | .ok (Json.str a), .ok (Json.str h) => some ⟨a.toList, h.toList⟩
       | _, _ => none
     | _ => none
+  let timetable : List (Str × Int) := match j.getObjVal? "timetable" with
+    | .ok (Json.arr a) => a.toList.filterMap fun p => match p with
+      | Json.arr q => match q[0]?, q[1]? with
+        | some (Json.str s), some (Json.str n) => (n.toInt?).map fun t => (s.toList, t)
+        | _, _ => none
+      | _ => none
+    | _ => []
   pure { parse := rec_,
+         parseTime := fun s => (timetable.find? (·.1 = s)).map (·.2),
          fetch := fun u =>
            match (Jtp.get env tol 20 ({ cap := 128 } : Jtp.Cache Doc) u).res with
            | .ok d src => match d.tree, rec_ src with
